@@ -42,8 +42,8 @@ ASSUMPTIONS = [
     "the *_connection theorems (writers_disciplined, total_le_budget_connection, amplification_bound_connection, "
     "flight_le_budget_connection, flight_budget_connection) need no discipline hypothesis: it is proved of the writer model "
     "for field values in their wire ranges (dts_ok: varints < 2^62, connection ids <= 20 bytes, stream senders reachable by a "
-    "legitimate C10 history and not reset); the flight variants additionally assume no PATH_CHALLENGE before an ACK in a packet "
-    "(dts_ackfirst; false for connection.py: writers_flight_refuted, candidate finding F14)",
+    "legitimate C10 history and not reset); since fix 7b299f1 (ACK before PATH_CHALLENGE) the flight variants need no further "
+    "proviso (former_order_flight_refuted keeps the old order as an explicit op history)",
     "total_le_budget / amplification_bound (builder level, kept) assume the caller discipline of connection.py's frame writers (frames only inside "
     "an open packet, declared capacity >= frame type size, bytes pushed only into the buffer handed out by start_frame, i.e. "
     "after a frame was started in the open packet, each push <= remaining_buffer_space)",
@@ -1143,14 +1143,29 @@ def writers_tie(ctx, rng):
             if len(derr) <= 2 and sum(derr.values()) <= 2:
                 ctx.violation("impl-violation", "writers: direct call raised %r" % (e,), {"suite": "writers_direct", "case": spec},
                               signature={"rule": "writer_raises", "level": "writer", "exception": type(e).__name__})
+    # packets of REAL connections (simulated runs + API scenarios) in which an ACK / CLOSE frame follows an in-flight frame
+    # (C08's first flight clause; 0 since fix 7b299f1, 217-243 per run before it)
+    stats["ack_after_inflight_packets_real_sessions"] = sum(cw.challenge_before_ack(x) for x in cw.SESSIONS[:n1])
     stats["direct_sessions"] = len(cw.SESSIONS) - n1
     stats["direct_exceptions"] = derr
-    # candidate finding F14 (C08's flight budget; not a C13 sentence): PATH_CHALLENGE before ACK, replayed on real connections
-    # through the public API on every run (informational: measured ledger before / after the offending datagrams_to_send)
+    # former finding C08-F14 (PATH_CHALLENGE before ACK, fixed by 7b299f1): the public-API scenario is re-run on every check;
+    # an overshoot of the congestion window by the migration packet is reported (it fires when the order is reverted)
     try:
         _STATE_on = cw._STATE["on"]
         cw._STATE["on"] = False
-        stats["f14_replay"] = [cw.f14_search(_mk_pair, CADDR, CADDR2, SADDR, pings=p) for p in (0, 60)]
+        reps = [cw.f14_search(_mk_pair, CADDR, CADDR2, SADDR, pings=p) for p in (0, 60)]
+        stats["f14_replay"] = reps
+        for rep in reps:
+            if rep["overshoot"] is not None:
+                o = rep["overshoot"]
+                ctx.violation("impl-violation",
+                              "writers: after a migration one datagrams_to_send() put %d bytes in flight with %d bytes of congestion "
+                              "window left (bytes_in_flight %d > congestion_window %d): an ACK written after PATH_CHALLENGE is not "
+                              "checked against the flight space" % (o["added_in_flight"], o["allowed"], o["bytes_in_flight_after"],
+                                                                     o["congestion_window"]),
+                              {"suite": "f14", "case": {"stream_bytes": o["stream_bytes"], "pings": o["pings"]}},
+                              signature={"rule": "flight_budget", "level": "connection", "cause": "ack_after_path_challenge"})
+                break
     except Exception as e:
         stats["f14_replay"] = repr(e)
     finally:
@@ -1220,6 +1235,9 @@ def run(ctx):
 def replay(ctx, rep):
     case = rep["case"]
     res = {}
+    if isinstance(case, dict) and case.get("suite") == "f14":
+        from props import c13_writers as cw
+        return {"f14": cw.f14_scenario(_mk_pair, CADDR, CADDR2, SADDR, case["case"]["stream_bytes"], case["case"]["pings"])}
     if isinstance(case, dict) and case.get("suite") in ("writers", "writers_direct"):
         from props import c13_writers as cw
         sess = case["case"]
